@@ -77,6 +77,13 @@ func (r *vround) ValidateHeartbeatProposal([20]byte, *HeartbeatProposal) error {
 func (r *vround) sign(ctx context.Context, m *big.Int, start uint64) (*tecdsa.Signature, *signingActivityReport, uint64, error) {
 	r.signedMsg, r.signStart = m, start
 	if r.outcome == oSignErr {
+		if r.variant {
+			// the signing window elapsed: still a signing error, not a completed low-activity heartbeat
+			if r.claimErr {
+				return nil, nil, 0, fmt.Errorf("verif: signing timed out: [%w]", context.DeadlineExceeded)
+			}
+			return nil, nil, 0, fmt.Errorf("verif: signing cancelled: [%w]", context.Canceled)
+		}
 		return nil, nil, 0, vErr
 	}
 	n := 100
